@@ -19,6 +19,18 @@ let impl_table file =
   tbl
 let impl_lines tbl k = List.rev (Hashtbl.find_all tbl k)
 
+(* boundary classes: a class is "<kind>[-<boundary>]*"; every boundary token is counted per kind
+   and printed as "STAT <kind>-<boundary> <cases>" so that a generator that stops hitting a
+   boundary is visible in the evidence *)
+let stats : (string, int) Hashtbl.t = Hashtbl.create 64
+let count_class cls =
+  match String.split_on_char '-' cls with
+  | [] -> ()
+  | kind :: toks ->
+    let bump k = Hashtbl.replace stats k (1 + (try Hashtbl.find stats k with Not_found -> 0)) in
+    bump (kind ^ "-cases");
+    List.iter (fun t -> if t <> "" then bump (kind ^ "-" ^ t)) (List.sort_uniq compare toks)
+
 let () =
   let cases = read_lines Sys.argv.(1) in
   let impl = impl_table Sys.argv.(2) in
@@ -32,6 +44,7 @@ let () =
         | Some run -> run ops
         | None -> ("BADKIND", "BADKIND", "trivial-badkind") in
       Printf.printf "CASE %d %s\n" k cls;
+      count_class cls;
       let got = List.filter_map (fun l -> if String.length l > 2 && String.sub l 0 2 = "R " then Some (String.sub l 2 (String.length l - 2)) else None) (impl_lines impl k) in
       (match got with
        | [] -> if not (List.exists (fun l -> String.length l >= 7 && String.sub l 0 7 = "MONITOR") (impl_lines impl k)) then
@@ -39,4 +52,6 @@ let () =
        | _ ->
          List.iter (fun g ->
            if g <> m then Printf.printf "DIFF %d model=[%s] impl=[%s]\n" k m g;
-           if g <> s then Printf.printf "FAIL %d %s-not-adt spec=[%s] impl=[%s]\n" k kind s g) got)) cases
+           if g <> s then Printf.printf "FAIL %d %s-not-adt spec=[%s] impl=[%s]\n" k kind s g) got)) cases;
+  List.iter (fun (k, v) -> Printf.printf "STAT %s %d\n" k v)
+    (List.sort compare (Hashtbl.fold (fun k v acc -> (k, v) :: acc) stats []))
